@@ -46,6 +46,8 @@ class Ctx:
         return self.tier == "thorough"
 
     def ob(self, rule: str, construct: str, ok: bool, detail: str = "", where: str = "", node: ast.AST | None = None):
+        if not ok and not detail:
+            detail = "the code does not have the structure this clause requires (see the construct description)"
         o = Obligation(rule, construct, bool(ok), detail, where, stmt_digest(node) if node is not None else "")
         self.obs.append(o)
         return o
@@ -58,10 +60,14 @@ class Ctx:
                 self.analysed_funcs.add(str(f))
 
     def require(self, rule: str, what: str, found: int, minimum: int):
-        """Fail closed: fewer rule instances than were confirmed by hand is an analysis error."""
+        """Fail closed: fewer rule instances than were confirmed by hand on the reference tree means that a site
+        implementing the mechanism was removed (or moved out of the analysed scope).  It is reported as a finding of the
+        rule - never a silent, vacuous pass."""
         self.counts[f"{rule}:{what}"] = found
-        if found < minimum:
-            raise AnalysisError(f"{rule}: only {found} instances of {what} (confirmed minimum {minimum}); anchors moved?")
+        self.ob(rule + "/count", f"{what}: at least {minimum} instance(s)", found >= minimum,
+                f"{found} found" if found >= minimum else
+                f"only {found} instance(s) of {what} found, {minimum} were confirmed on the reference tree: a site of this mechanism was removed "
+                f"or no longer has the shape the rule recognises", "")
 
     def assume(self, text: str):
         if text not in self.assumptions:
